@@ -194,3 +194,114 @@ def c07_1(run):
     if not n_done:
         raise Inconclusive('vacuity')
     run.require_reached(*run.cur.reach)
+
+
+# ----------------------------------------------------------------------------------------------------------------- C07-2
+def filtered_obligation(fname):
+    def ob(run):
+        same = lambda ctx: [(None, ctx.ex.deref_val(ctx.st, ctx.args[0]))]
+        hooks = [(re.compile(r'^<R as Into<.*RollupId>>::into$|^<.*RollupId as From<R>>::from$'), same),
+                 (re.compile(r'^<.* as Clone>::clone$'), lambda ctx: [(None, ctx.ex.deref_val(ctx.st, ctx.args[0]))])]
+        ex = loader.load(['astria-core'], scalar_types={'astria_core::primitive::v1::RollupId': 256, 'primitive::v1::RollupId': 256, 'RollupId': 256, 'sequencerblock::v1::block::Hash': 256, 'block::Hash': 256}, hooks=hooks, dep_adts=['tendermint'])
+        cands = [n for n in ex.fns if n.endswith('::' + fname) and 'closure' not in n and (ex.impl_self(n) or (None, ''))[1] == 'SequencerBlock']
+        if len(cands) != 1:
+            raise Inconclusive(f'SequencerBlock::{fname} not found: {cands}')
+        run.bound(block='0..2 rollups in the block (distinct ids)', request='0..2 requested rollup ids, arbitrary (equal to block ids, to each other, or unknown)')
+        n = 0
+        for k in (0, 1, 2):
+            for q in (0, 1, 2):
+                bids = [z3.BitVec(f'block_rollup{j}', 256) for j in range(k)]
+                rts = []
+                for j in range(k):
+                    rt = Obj('astria_core::sequencerblock::v1::block::RollupTransactions', kind='opaque'); rt.attrs['tag'] = f'rt{j}'
+                    rts.append(rt)
+                fields = {}
+                for nm in ('header', 'rollup_transactions_proof', 'rollup_ids_proof', 'upgrade_change_hashes', 'extended_commit_info_with_proof'):
+                    o = Obj(nm, kind='opaque'); o.attrs['tag'] = nm; fields[nm] = o
+                blk = B.struct(ex, 'SequencerBlock', block_hash=z3.BitVec('block_hash', 256), rollup_transactions=M.new_map('IndexMap<RollupId, RollupTransactions>', list(zip(bids, rts))), **fields)
+                qids = [z3.BitVec(f'requested{j}', 256) for j in range(q)]
+                arg0 = blk if fname == 'into_filtered_block' else B.cell(blk)
+                st = ex.start(cands[0], [arg0, M.new_vec('Vec<RollupId>', qids)])
+                st.pc += [bids[a] != bids[b] for a in range(k) for b in range(a + 1, k)]
+                for i, p in enumerate(run.explore(ex, st, allow_havoc=(r'^Arguments::|fmt::',))):
+                    lab = f'[{fname}: {k} rollups in block, {q} requested, path {i}]'
+                    if p.kind != 'return':
+                        run.prove(f'no panic {lab}', p.pc, z3.BoolVal(False), detail=p.info); continue
+                    n += 1
+                    res = ex.deref_val(p, p.result)
+                    got = [(ex.deref_val(p, kk), ex.deref_val(p, v).attrs.get('tag')) for kk, v in B.fld(ex, p, res, 'rollup_transactions', 'IndexMap').attrs['items']]
+                    allids = [ex.deref_val(p, x) for x in B.fld(ex, p, res, 'all_rollup_ids', 'Vec<RollupId>').attrs['items']]
+                    run.sample({'fn': fname, 'block': k, 'requested': q, 'path': i, 'served': [t for _, t in got]})
+                    claim = [z3.BoolVal(len(allids) == k), *[allids[j] == bids[j] for j in range(min(k, len(allids)))], B.fld(ex, p, res, 'block_hash', 'block::Hash') == z3.BitVec('block_hash', 256)]
+                    for nm in fields:
+                        v = ex.deref_val(p, B.fld(ex, p, res, nm, '?'))
+                        claim.append(z3.BoolVal(isinstance(v, Obj) and v.attrs.get('tag') == nm))
+                    # served entries: keyed by their own id, each block rollup served iff requested, nothing else
+                    for kk, t in got:
+                        j = int(t[2:]) if t and t.startswith('rt') else None
+                        claim.append(kk == bids[j] if j is not None else z3.BoolVal(False))
+                    tags = [t for _, t in got]
+                    claim.append(z3.BoolVal(len(tags) == len(set(tags))))
+                    for j in range(k):
+                        requested = z3.Or(*[x == bids[j] for x in qids]) if qids else z3.BoolVal(False)
+                        claim.append(z3.BoolVal(f'rt{j}' in tags) == requested)
+                    run.prove(f'the filtered block serves exactly the requested rollups that have data (each under its own id, once), lists ALL rollup ids of the block, and carries header, hash and proofs unchanged {lab}', p.pc, z3.And(*claim))
+        if not n:
+            raise Inconclusive('vacuity')
+        run.require_reached(*run.cur.reach)
+    return ob
+
+
+obligation('C07', 'C07-2a SequencerBlock::into_filtered_block serves exactly the requested rollups, all rollup ids, unchanged header and proofs')(filtered_obligation('into_filtered_block'))
+obligation('C07', 'C07-2b SequencerBlock::to_filtered_block serves exactly the requested rollups, all rollup ids, unchanged header and proofs')(filtered_obligation('to_filtered_block'))
+
+
+# ----------------------------------------------------------------------------------------------------------------- C07-3
+@obligation('C07', 'C07-3 split for Celestia: one metadata item listing exactly the block\'s rollup ids and carrying header / hash / proofs, plus one rollup-data item per rollup with that rollup\'s id, transactions, proof and THIS block\'s hash')
+def c07_3(run):
+    same = lambda ctx: [(None, ctx.ex.deref_val(ctx.st, ctx.args[0]))]
+    hooks = [(re.compile(r'^<.* as Clone>::clone$'), same)]
+    ex = loader.load(['astria-core'], scalar_types={'astria_core::primitive::v1::RollupId': 256, 'primitive::v1::RollupId': 256, 'RollupId': 256, 'sequencerblock::v1::block::Hash': 256, 'block::Hash': 256}, hooks=hooks, dep_adts=['tendermint'])
+    cands = [n for n in ex.fns if n.endswith('::from_sequencer_block') and 'closure' not in n and (ex.impl_self(n) or (None, ''))[1] == 'PreparedBlock']
+    if len(cands) != 1:
+        raise Inconclusive(f'PreparedBlock::from_sequencer_block not found: {cands}')
+    run.bound(block='0..3 rollups (distinct ids), each with an opaque transaction list and proof')
+    n = 0
+    for k in (0, 1, 2, 3):
+        bids = [z3.BitVec(f'block_rollup{j}', 256) for j in range(k)]
+        rts = []
+        for j in range(k):
+            b0 = Obj('bytes::Bytes', kind='opaque'); b0.attrs['tag'] = f'tx{j}a'
+            b1 = Obj('bytes::Bytes', kind='opaque'); b1.attrs['tag'] = f'tx{j}b'
+            txs = M.new_vec('Vec<Bytes>', [b0, b1]); txs.attrs['tag'] = f'txs{j}'
+            proof = Obj('merkle::audit::Proof', kind='opaque'); proof.attrs['tag'] = f'proof{j}'
+            rts.append(B.struct(ex, 'RollupTransactions', rollup_id=bids[j], transactions=txs, proof=proof))
+        fields = {}
+        for nm in ('header', 'rollup_transactions_proof', 'rollup_ids_proof', 'upgrade_change_hashes', 'extended_commit_info_with_proof'):
+            o = Obj(nm, kind='opaque'); o.attrs['tag'] = nm; fields[nm] = o
+        blk = B.struct(ex, 'SequencerBlock', block_hash=z3.BitVec('block_hash', 256), rollup_transactions=M.new_map('IndexMap<RollupId, RollupTransactions>', list(zip(bids, rts))), **fields)
+        st = ex.start(cands[0], [blk])
+        st.pc += [bids[a] != bids[b] for a in range(k) for b in range(a + 1, k)]
+        for i, p in enumerate(run.explore(ex, st, allow_havoc=(r'^Arguments::|fmt::',))):
+            lab = f'[{k} rollups, path {i}]'
+            if p.kind != 'return':
+                run.prove(f'no panic {lab}', p.pc, z3.BoolVal(False), detail=p.info); continue
+            n += 1
+            res = ex.deref_val(p, p.result)
+            head = ex.deref_val(p, B.fld(ex, p, res, 'head', 'SubmittedMetadata')); tail = [ex.deref_val(p, x) for x in B.fld(ex, p, res, 'tail', 'Vec<SubmittedRollupData>').attrs['items']]
+            hids = [ex.deref_val(p, x) for x in B.fld(ex, p, head, 'rollup_ids', 'Vec<RollupId>').attrs['items']]
+            claim = [z3.BoolVal(len(hids) == k and len(tail) == k), B.fld(ex, p, head, 'block_hash', 'block::Hash') == z3.BitVec('block_hash', 256)]
+            for nm in fields:
+                v = ex.deref_val(p, B.fld(ex, p, head, nm, '?'))
+                claim.append(z3.BoolVal(isinstance(v, Obj) and v.attrs.get('tag') == nm))
+            if len(hids) == k and len(tail) == k:
+                for j in range(k):
+                    t = tail[j]
+                    txs = ex.deref_val(p, B.fld(ex, p, t, 'transactions', 'Vec<Bytes>')); pr = ex.deref_val(p, B.fld(ex, p, t, 'proof', 'Proof'))
+                    claim += [hids[j] == bids[j], B.fld(ex, p, t, 'rollup_id', 'RollupId') == bids[j], B.fld(ex, p, t, 'sequencer_block_hash', 'block::Hash') == z3.BitVec('block_hash', 256),
+                              z3.BoolVal(isinstance(pr, Obj) and pr.attrs.get('tag') == f'proof{j}'), z3.BoolVal(isinstance(txs, Obj) and [ex.deref_val(p, x).attrs.get('tag') for x in txs.attrs.get('items', [])] == [f'tx{j}a', f'tx{j}b'])]
+            run.sample({'rollups': k, 'path': i, 'tail': len(tail)})
+            run.prove(f'metadata lists exactly the block\'s rollup ids in block order and carries the block\'s hash, header and proofs; the j-th rollup item carries id, transactions and proof of the j-th rollup and the same block hash {lab}', p.pc, z3.And(*claim))
+    if not n:
+        raise Inconclusive('vacuity')
+    run.require_reached(*run.cur.reach)
